@@ -109,7 +109,7 @@ class G:
             (8, self.c_group), (8, self.c_unknown), (6, self.c_vanish), (4, self.c_ref),
             (4, self.c_special), (3, self.c_symbol), (3, self.c_accent), (5, self.c_inline_math),
             (3, self.c_verb), (4, self.c_usermacro), (3, self.c_cite), (2, self.c_ltmacro),
-            (2, self.c_foreign), (1, self.c_hspace), (1, self.c_linebreak), (1, self.c_def),
+            (2, self.c_foreign), (1, self.c_hspace), (1, self.c_linebreak), (1, self.c_def), (2, self.c_gls),
         ]
         if ctx == 'text':
             choices += [(4, self.c_footnote)]
@@ -259,12 +259,20 @@ class G:
         body = []
         for _ in range(rng.randint(1, 4)):
             r = rng.random()
+            if self.p('risky_body', False) and r < 0.75:
+                r = 0.75 + r / 3
             if nargs and r < 0.5:
                 body.append({'t': 'param', 'n': rng.randint(1, nargs)})
-            elif r < 0.85:
+            elif r < 0.75:
                 body.append(self.word())
+            elif r < 0.85:
+                body.append({'t': 'special', 's': rng.choice(['--', '~', '\\,', "''", '\\)', '\\]', '---', '\\&'])})
+            elif r < 0.9:
+                body.append(self.c_verb())
+            elif r < 0.95:
+                body.append(self.c_accent())
             else:
-                body.append({'t': 'special', 's': rng.choice(['--', '~', '\\,'])})
+                body.append({'t': 'ws', 's': rng.choice(['   \n\n', '\n\n', ' \n', '          \n\n'])})
         m = {'name': name, 'nargs': nargs, 'opt': self.names.word() if opt else None, 'body': body,
              'cmd': rng.choice(['\\newcommand', '\\newcommand', '\\renewcommand', '\\newcommand*'])}
         self.macros.append(m)
@@ -314,6 +322,20 @@ class G:
 
     def c_caption_fig(self):
         return {'t': 'figure', 'body': self.seq(2, allow_par=False), 'caption': self.seq(self.rng.randint(1, 3), allow_par=False, ctx='arg')}
+
+    def c_gls(self):
+        rng = self.rng
+        if not getattr(self, 'gls', None) or rng.random() < 0.4:
+            lab = 'g' + ''.join(rng.choice(LET) for _ in range(2))
+            self.gls = getattr(self, 'gls', []) + [lab]
+            kind = rng.choice(['acr', 'entry', 'entry_nodesc'])
+            first = rng.choice(['', '', 'ß', 'ŉ', 'ǆ', 'é'])
+            return {'t': 'glsdef', 'kind': kind, 'label': lab, 'short': self.names.word(),
+                    'desc': [{'t': 'word', 'w': first + self.names.word()} if not first else {'t': 'rawword', 'w': first + 'x'}] +
+                            [self.word() for _ in range(rng.randint(0, 2))],
+                    'endp': rng.choice(['', '', '.', '!'])}
+        return {'t': 'gls', 'name': rng.choice(['\\gls', '\\Gls', '\\GLS', '\\glspl', '\\glsdesc', '\\Glsdesc', '\\glstext']),
+                'label': rng.choice(self.gls)}
 
     def c_usepackage(self):
         return {'t': 'usepackage', 'pkg': self.rng.choice(['babel', 'amsmath', 'xcolor', 'graphicx', 'hyperref', 'biblatex',
@@ -487,11 +509,14 @@ def r_call(n, r):
     m = n['m']
     r.emit(m['name'])
     if not n['args']:
-        r.emit(n['sp'] if n['sp'] else '{}')
+        if n['sp'] != 'bare':
+            r.emit(n['sp'] if n['sp'] else '{}')
     for k, a in enumerate(n['args']):
         if k == 0 and m['opt'] is not None:
             if a is not None:
                 r.emit('['); render(a, r); r.emit(']')
+        elif n.get('single') == 'risky':
+            r.emit(' ' + 'rßeZ'[k % 4])
         else:
             r.emit('{'); render(a, r); r.emit('}')
 def r_theorem(n, r):
@@ -512,6 +537,24 @@ def r_otherlanguage(n, r):
 def r_figure(n, r):
     r.emit('\\begin{figure}\n'); render(n['body'], r); r.emit('\n\\caption{')
     with_role(r, 'detached', lambda: render(n['caption'], r)); r.emit('}\n\\end{figure}')
+def r_rawword(n, r):
+    r.emit(n['w'])
+def r_glsdef(n, r):
+    if n['kind'] == 'acr_single':
+        r.emit('\\newacronym{' + n['label'] + '}{'); r.word(n['short'], 'hidden'); r.emit('}' + n['desc'][0]['w'][0]); return
+    if n['kind'] == 'acr':
+        r.emit('\\newacronym{' + n['label'] + '}{'); r.word(n['short'], 'hidden'); r.emit('}{')
+    elif n['kind'] == 'entry':
+        r.emit('\\newglossaryentry{' + n['label'] + '}{name='); r.word(n['short'], 'hidden'); r.emit(',description={')
+    else:
+        r.emit('\\newglossaryentry{' + n['label'] + '}{name='); r.word(n['short'], 'hidden'); r.emit(',description}'); return
+    for i, b in enumerate(n['desc']):
+        if i:
+            r.emit(' ')
+        render(b, r)
+    r.emit(n['endp'] + ('}}' if n['kind'] == 'entry' else '}'))
+def r_gls(n, r):
+    r.emit(n['name'] + '{' + n['label'] + '}')
 def r_usepackage(n, r):
     r.emit('\\usepackage' + ('[' + n['opt'] + ']' if n['opt'] else '') + '{' + n['pkg'] + '}')
 
@@ -523,8 +566,40 @@ RENDER = {
     'itemize': r_itemize, 'display': r_display, 'env': r_env, 'verbatim': r_verbatim, 'skip': r_skip,
     'param': r_param, 'newcommand': r_newcommand, 'call': r_call, 'theorem': r_theorem, 'proof': r_proof,
     'selectlanguage': r_selectlanguage, 'otherlanguage': r_otherlanguage, 'figure': r_figure,
-    'usepackage': r_usepackage,
+    'usepackage': r_usepackage, 'rawword': r_rawword, 'glsdef': r_glsdef, 'gls': r_gls,
 }
+
+def edge_docs(rng, k=1):
+    """G-edge: every construct as the very last thing of the text (and as the only thing on
+    its line), after some definitions — where range and blank-line bugs live"""
+    out = []
+    g = G(rng)
+    names = [a for a in dir(g) if a.startswith('c_')] + ['c_usermacro'] * 8 + ['c_gls'] * 6
+    for nm in names:
+        for _ in range(k):
+            g = G(rng, {'risky_body': rng.random() < 0.5})
+            items = []
+            for _ in range(rng.randint(1, 3)):
+                items += [rng.choice([g.c_newcommand, g.c_newcommand, g.c_def, g.c_gls])(), {'t': 'ws', 's': '\n'}]
+            items += [g.word(), {'t': 'ws', 's': rng.choice([' ', '\n', '\n\n'])}]
+            last = getattr(g, nm)() if rng.random() < 0.5 else rng.choice([g.c_usermacro, g.c_gls])()
+            if last['t'] == 'call':
+                q = rng.random()
+                if q < 0.35 and not last['args']:
+                    last['sp'] = 'bare'
+                elif q < 0.6:
+                    last['single'] = 'risky'
+            if last['t'] == 'glsdef' and last['kind'] == 'acr' and rng.random() < 0.4:
+                last['kind'] = 'acr_single'
+            items.append(last)
+            if last['t'] in ('call', 'glsdef') and rng.random() < 0.8:
+                pass
+            elif rng.random() < 0.3:
+                items.append({'t': 'ws', 's': rng.choice(['\n', ' ', '\n\n'])})
+            r = R()
+            render({'t': 'seq', 'items': items}, r)
+            out.append(r)
+    return out
 
 def make_doc(rng, profile=None, n=None):
     g = G(rng, profile)
